@@ -8,6 +8,7 @@
 //	harness-frame mutators <n>              sequences of frame mutators (C20) and of Startup accessors
 //	harness-frame specbytes                 hand-written specification-formatted frames the encoder never emits, decoded by the codec
 //	harness-frame growth                    allocation volume of the decoders on input families of size n and 4n (growth rate)
+//	harness-frame prims                     LengthOf / Write / Read of every primitive notation on value sweeps (C03)
 //	harness-frame selftest                  a Coq file with one populated term of every message kind and data type
 //	harness-frame one <entry> <version> <compression> <hex>   a single malformed case in this process (replay)
 //	harness-frame worker                    (internal) malformed cases from stdin, one JSON line each
@@ -69,6 +70,8 @@ func main() {
 		cmdSpecBytes()
 	case "growth":
 		cmdGrowth()
+	case "prims":
+		cmdPrims()
 	case "selftest":
 		cmdSelftest()
 	case "one":
